@@ -147,6 +147,10 @@ def Fn.argsWithoutSelf {α} (f : Fn) (args : List α) : List α := if f.strips t
 def Fn.clazzFails {α} (f : Fn) (args : List α) : Bool :=
   !f.firstIsSelf && !f.isBound && f.isStatic && args.isEmpty && !f.qualDotted
 
+/-- `FunctionCall.__init__` fails (IndexError from `self.args[0]`): an instance method called without any positional argument, unless the
+    receiver may come by keyword (`receiverMayBeKeyword`) -/
+def Fn.initFails {α} (f : Fn) (args : List α) : Bool := f.firstIsSelf && args.isEmpty && !receiverMayBeKeyword
+
 def lookup {β} (kw : List (NameId × β)) (k : NameId) : Option β :=
   match kw with
   | [] => none
@@ -234,7 +238,7 @@ def checkStar (env : Env) (orc : Nat → Val → Raw) (f : Fn) (args : List Val)
 
 /-- the keyword arguments that no declared parameter consumed -/
 def extraKw (f : Fn) (kw : List (NameId × Val)) : List (NameId × Val) :=
-  kw.filter (fun kv => !(f.plain.any (fun q => q.name == kv.1)))
+  kw.filter (fun kv => !(f.plain.any (fun q => q.name == kv.1)) && !(dstarSkipsReceiverKeyword && f.firstIsSelf && kv.1 == f.selfName))
 
 /-- `_check_types_kwargs` -/
 def checkDStar (env : Env) (orc : Nat → Val → Raw) (f : Fn) (args : List Val) (kw : List (NameId × Val)) : Option Caller :=
@@ -314,7 +318,7 @@ def invoke (env : Env) (orc : Nat → Val → Raw) (f : Fn) (args : List Val) (k
 /-- one call of the decorated callable: `args` / `kw` are what the wrapper receives -/
 def runCall (env : Env) (orc : Nat → Val → Raw) (f : Fn) (args : List Val) (kw : List (NameId × Val)) (body : BodyOut) : Result :=
   -- FunctionCall.__init__: `self.args[0] if is_instance_method`
-  if f.firstIsSelf && args.isEmpty then ⟨.escape "IndexError", false, [], []⟩ else
+  if f.initFails args then ⟨.escape "IndexError", false, [], []⟩ else
   -- assert_uses_kwargs
   if f.shouldHaveKwargs && !(f.argsWithoutSelf args).isEmpty then ⟨.pedCallWithArgs, false, [], []⟩ else
   match f.mode with
